@@ -145,13 +145,12 @@ theorem newaxis_ok {α} (x : DimArray α) (d : String) (i : Nat) (hd : d ∉ x.d
     newaxis x d (i : Int) none = .ok (insNone x d i) := by
   unfold newaxis insNone
   have h1 : x.dims.contains d = false := by simpa using hd
-  have h2 : ((i : Int) == -1) = false := by
-    have : (i : Int) ≠ -1 := by omega
-    simp
+  have h2 : ¬ ((i : Int) < 0) := by omega
   have h3 : (decide ((i : Int) < 0) || decide ((i : Int) > (x.ndim : Int))) = false := by
     have : ¬ ((i : Int) > (x.axes.length : Int)) := by omega
     simp [DimArray.ndim, this]
-  simp only [h1, h2, h3, Bool.false_eq_true, if_false, Int.toNat_natCast, pure, Except.pure, noneAx]
+  have h4 : ¬ ((i : Int) > (x.ndim : Int)) := by simp only [DimArray.ndim]; omega
+  simp only [h1, h2, h4, decide_false, Bool.or_self, Bool.false_eq_true, if_false, Int.toNat_natCast, pure, Except.pure, noneAx]
 
 theorem newaxis_extBy {α} (x : DimArray α) (d : String) (i : Nat) (hd : d ∉ x.dims) (hi : i ≤ x.axes.length)
     (hr : x.vals.shape.length = x.axes.length) :
